@@ -465,9 +465,20 @@ def run_runtime_store(base, idx, r, sh):
         with open(lay.plan, "w") as f:
             f.write("")
         store = rnd_plain_table(r) if r.random() < 0.6 else {}
-        if r.random() < 0.6:
+        k = r.random()
+        if k < 0.45:
             with open(os.path.join(lay.layers, "store.toml"), "w") as f:
                 f.write("[metadata]\n" + "".join('old_%d = "%s"\n' % (i, "x" * 30) for i in range(40)))
+        elif k < 0.75:
+            # the store of the previous build is *almost* what this build returns: equal under ==, different as a document
+            # (0.0 vs -0.0). What is on disk afterwards is what was returned.
+            store["zero"] = r.choice([0.0, -0.0])
+            store["zeros"] = [0.0, -0.0, r.choice([0.0, -0.0])]
+            old = dict(store)
+            old["zero"] = -store["zero"]
+            old["zeros"] = [-x for x in store["zeros"]]
+            with open(os.path.join(lay.layers, "store.toml"), "w") as f:
+                f.write(tomlw.selfcheck({"metadata": old}))
         script = {"build": {"result": "ok", "launch": None, "store": tomlw.tagged(store), "build_sboms": [], "launch_sboms": []}}
         st, marker, err = lay.run("build", lay.build_args(), lay.env(), script)
         sh.evaluations += 1
